@@ -63,18 +63,18 @@ func c06FromJSON(payload string) ([]string, error) {
 // listed, holds no detector, none of the tasks launched for it is still owned by it and every one of them has been
 // asked to terminate. When it succeeds the environment is listed, CONFIGURED, and owns its tasks.
 //
-//verif:entry HarnessCreationFailures unwind=96 preempt=0 timers=lazy reach=created,load-failed,deploy-failed,configure-failed stub=github.com/AliceO2Group/Control/common/utils.TimeTrack,encoding/json.Unmarshal,encoding/json.Marshal nosched=github.com/AliceO2Group/Control/core/the.mu replace=github.com/AliceO2Group/Control/core/environment.JSONSliceToSlice=>c06FromJSON,github.com/AliceO2Group/Control/core/environment.SliceToJSONSlice=>c06ToJSON steps=20000000
+//verif:entry HarnessCreationFailures unwind=96 preempt=0 sleepbound=0 timers=lazy reach=created,load-failed,deploy-failed,configure-failed stub=github.com/AliceO2Group/Control/common/utils.TimeTrack,encoding/json.Unmarshal,encoding/json.Marshal nosched=github.com/AliceO2Group/Control/core/the.mu replace=github.com/AliceO2Group/Control/core/environment.JSONSliceToSlice=>c06FromJSON,github.com/AliceO2Group/Control/core/environment.SliceToJSONSlice=>c06ToJSON steps=20000000
 func HarnessCreationFailures() {
-	// scenarios (quick: 0..4; thorough: all)
+	// scenarios (quick: 0..4 and 7; thorough: all)
 	//   0 the workflow cannot be loaded            1 everything works
 	//   2 a task refuses CONFIGURE                 3 the second, critical task cannot be placed anywhere
 	//   4 the second, critical task is not placed in any round (three attempts, the first task launched each time)
 	//   5 the first task cannot be placed          6 the second task is not critical and cannot be placed
-	last := 4
-	if vrt.Tier() == 1 {
-		last = 6
+	//   7 both tasks are launched but have not reported TASK_RUNNING when DEPLOY gives up waiting (slow start)
+	scenario := vrt.IntRange("scenario", 0, 7)
+	if vrt.Tier() != 1 {
+		vrt.Assume(scenario <= 4 || scenario == 7)
 	}
-	scenario := vrt.IntRange("scenario", 0, last)
 	loadFails := scenario == 0
 	verdicts := map[string]int{"k1": task.VerifLaunched, "k2": task.VerifLaunched}
 	secondCritical := scenario != 6
@@ -129,10 +129,11 @@ func HarnessCreationFailures() {
 	envs := NewEnvManager(world.M, events)
 	id := uid.ID("2envAAAAAAA")
 
-	_, err := envs.CreateEnvironment("wf", map[string]string{}, false, id, false)
+	// (a short deployment timeout keeps the native runs of scenario 7 short; under the interpreter it is a timer like any other)
+	_, err := envs.CreateEnvironment("wf", map[string]string{"deploy_timeout": "2s"}, false, id, false)
 
 	missing := func(c string) bool { return verdicts[c] != task.VerifLaunched }
-	wantOK := !loadFails && !missing("k1") && !(secondCritical && missing("k2")) && configureRefusedBy == ""
+	wantOK := !loadFails && !missing("k1") && !(secondCritical && missing("k2")) && configureRefusedBy == "" && scenario != 7
 	if scenario != 6 { // (a non-critical task that cannot be launched: see the C02 known finding on DEPLOY; not asserted here)
 		vrt.Assert((err == nil) == wantOK, "creation-succeeds-iff-every-stage-did")
 	}
